@@ -26,6 +26,11 @@ CLAIMED = {
     technique='ast who-flows-where analysis over every Tape(...) construction and run_tape call site, abstract evaluation of set_tape_flags under aliasing, path-count dataflow for plugin runs, who-may-write rule for flags, guard dominance',
     text='For every sub-tape construction site and run_tape call site in the VM the check proves that contracts, plugins, call limits and the flag map of the parent govern the nested execution (including an abstract evaluation of set_tape_flags under the alias relation between sub-tape flags, additional_flags and the parent map), that signature-extension plugins run exactly once and first in each signature-related handler, that only the flag instructions write flags, and that evaluation of stack data sits behind the disallow guard. Complete for these configuration kinds over all nesting contexts because every context is one of the enumerated sites.',
     note='Trusted: CPython ast, tsa analyser. Flag keys assumed str/int. Known finding: SET_FLAG/UNSET_FLAG use bytes keys (listed in known_findings.json).'),
+ 'C11': dict(
+    level='other', ref='DESIGN.md 4 C11',
+    technique='ast exhaustiveness query over the compiler dispatch, abstract interpretation of each encoder helper to derive its emitted operand shape and sibling cross-check against the VM handler tape-read shape, terminator-advance uniformity rule over the six block parsers, interval partition of the PUSH size guards',
+    text='Decides the structural clauses of C11: every VM op has exactly one compiler case, the operand shape each encoder helper emits on all non-raising paths equals what the VM handler reads, block parsers advance by one over their own terminators (the END_IF defect, now fixed), the PUSH size guards partition [1,65535] exactly with matching prefix widths and opcodes, and statement parts are concatenated in source order. Tokenizer behaviour on arbitrary text, value-prefix parsing, macros, variables and comptime are not decided.',
+    note='Trusted: CPython ast, tsa analyser. Encoder paths whose payload is provably still a str are treated as rejected (b"".join raises).'),
  'C12': dict(
     level='other', ref='DESIGN.md 4 C12',
     technique='ast termination argument (read-size kind classification per match arm, loop-progress and well-founded-recursion rules) plus sibling cross-check decompiler arms vs VM handler tape-read shapes and formatter/domain classification against the compiler helpers',
